@@ -1,6 +1,7 @@
 package km
 
 import (
+	"sort"
 	_ "embed"
 	"encoding/json"
 	"go/token"
@@ -22,6 +23,161 @@ import (
 
 //go:embed pinned_types.json
 var pinnedTypesJSON []byte
+
+//go:embed pinned_globals.json
+var pinnedGlobalsJSON []byte
+
+// globalFunc: a function-typed package-level variable new to the tree -> the only function ever assigned to it.
+var globalFunc = map[*ssa.Global]*ssa.Function{}
+
+// paramFunc: a function-typed parameter of a function new to the tree -> the one plain function every caller passes.
+var paramFunc = map[*ssa.Parameter]*ssa.Function{}
+
+// PinnedGlobalsTable renders the package-level variables of the loaded tree (kmcheck -dump pinnedglobals).
+func PinnedGlobalsTable(p *Prog) []byte {
+	var names []string
+	for _, pk := range p.Pkgs {
+		sp := p.SSAPkg[pk.PkgPath]
+		for n, m := range sp.Members {
+			if _, ok := m.(*ssa.Global); ok {
+				names = append(names, pk.PkgPath+"."+n)
+			}
+		}
+	}
+	sort.Strings(names)
+	b, _ := json.MarshalIndent(names, "", " ")
+	return append(b, '\n')
+}
+
+func plainFuncValue(v ssa.Value) *ssa.Function {
+	switch x := v.(type) {
+	case *ssa.Function:
+		return x
+	case *ssa.MakeClosure:
+		if len(x.Bindings) == 0 {
+			f, _ := x.Fn.(*ssa.Function)
+			return f
+		}
+	case *ssa.ChangeType:
+		return plainFuncValue(x.X)
+	}
+	return nil
+}
+
+func computeFuncValues(p *Prog) {
+	globalFunc = map[*ssa.Global]*ssa.Function{}
+	paramFunc = map[*ssa.Parameter]*ssa.Function{}
+	var gl []string
+	if json.Unmarshal(pinnedGlobalsJSON, &gl) != nil || len(gl) == 0 {
+		return
+	}
+	pinnedGlobal := map[string]bool{}
+	for _, n := range gl {
+		pinnedGlobal[n] = true
+	}
+	// package-level function variables
+	gcand := map[*ssa.Global]map[*ssa.Function]bool{}
+	gbad := map[*ssa.Global]bool{}
+	for _, fn := range p.AllFuncs {
+		for _, b := range fn.Blocks {
+			for _, in := range b.Instrs {
+				st, ok := in.(*ssa.Store)
+				if !ok {
+					continue
+				}
+				g, isG := st.Addr.(*ssa.Global)
+				if !isG || g.Pkg == nil {
+					continue
+				}
+				if _, isSig := g.Type().Underlying().(*types.Pointer).Elem().Underlying().(*types.Signature); !isSig {
+					continue
+				}
+				if pinnedGlobal[g.Pkg.Pkg.Path()+"."+g.Name()] {
+					continue
+				}
+				f := plainFuncValue(st.Val)
+				if f == nil || fn != g.Pkg.Func("init") {
+					gbad[g] = true
+					continue
+				}
+				if gcand[g] == nil {
+					gcand[g] = map[*ssa.Function]bool{}
+				}
+				gcand[g][f] = true
+			}
+		}
+	}
+	for g, fs := range gcand {
+		if gbad[g] || len(fs) != 1 {
+			continue
+		}
+		for f := range fs {
+			globalFunc[g] = f
+			RenameNotes = append(RenameNotes, "call through the new function variable "+g.String()+" resolved to "+f.String())
+		}
+	}
+	// function-typed parameters of functions new to the tree
+	pcand := map[*ssa.Parameter]map[*ssa.Function]bool{}
+	pbad := map[*ssa.Parameter]bool{}
+	called := map[*ssa.Function]bool{}
+	for _, fn := range p.AllFuncs {
+		for _, b := range fn.Blocks {
+			for _, in := range b.Instrs {
+				// a function whose address is taken may be called with anything
+				for _, op := range in.Operands(nil) {
+					if op == nil || *op == nil {
+						continue
+					}
+					if f, ok := (*op).(*ssa.Function); ok {
+						if ci, isCall := in.(ssa.CallInstruction); !isCall || ci.Common().Value != ssa.Value(f) {
+							for _, q := range f.Params {
+								pbad[q] = true
+							}
+						}
+					}
+				}
+				ci, ok := in.(ssa.CallInstruction)
+				if !ok {
+					continue
+				}
+				g := staticCalleeRaw(ci.Common())
+				if g == nil || g.Blocks == nil || recordedFuncNames[recordedString(g.String())] {
+					continue
+				}
+				called[g] = true
+				args := callArgsRaw(ci.Common())
+				for i, q := range g.Params {
+					if _, isSig := q.Type().Underlying().(*types.Signature); !isSig {
+						continue
+					}
+					if i >= len(args) {
+						pbad[q] = true
+						continue
+					}
+					f := plainFuncValue(args[i])
+					if f == nil {
+						pbad[q] = true
+						continue
+					}
+					if pcand[q] == nil {
+						pcand[q] = map[*ssa.Function]bool{}
+					}
+					pcand[q][f] = true
+				}
+			}
+		}
+	}
+	for q, fs := range pcand {
+		if pbad[q] || len(fs) != 1 || !called[q.Parent()] {
+			continue
+		}
+		for f := range fs {
+			paramFunc[q] = f
+			RenameNotes = append(RenameNotes, "call through the function parameter "+q.Name()+" of "+q.Parent().String()+" resolved to "+f.String())
+		}
+	}
+}
+
 
 var pinnedTypes = map[string]bool{}
 
@@ -220,6 +376,14 @@ func devirtInvoke(c *ssa.CallCommon) *ssa.Function {
 
 // fieldFuncOf: the only function behind a call through a function-typed field that is new to the tree.
 func fieldFuncOf(v ssa.Value) *ssa.Function {
+	switch x := v.(type) {
+	case *ssa.Parameter:
+		return paramFunc[x]
+	case *ssa.UnOp:
+		if g, ok := x.X.(*ssa.Global); ok && x.Op == token.MUL {
+			return globalFunc[g]
+		}
+	}
 	if len(fieldFunc) == 0 {
 		return nil
 	}
